@@ -176,6 +176,7 @@ def _check_guard_table(run, Q, guards, cases, parser, hyp, mod, node,
                 if a[0] == "p" and a[1] not in vocab and not (
                         a[1].endswith(" == key.step") or
                         a[1].startswith("key.step == ") or
+                        a[1] in ("key.step", "bool(key.step)") or
                         a[1].startswith("value has a bit in lanes") or
                         " >= 2**(" in a[1]):
                     raise AnalysisError(
